@@ -59,9 +59,15 @@ def cases(tier):
     # both sides with plans: payload type / task-capacity headroom must not change how plans run (symbolic plan, succeed/fail)
     pb = dict(features=['PLANS'], taskcap=3, callbacks=['guard', 'life', 'update1', 'select', 'plan'], act=['update'], kinds=0x0e)
     for name, extra in [('plans_payload', dict(payload='u32'))] + ([('plans_taskcap', dict(taskcap=5)), ('plans_history', dict(features=['PLANS', 'TRANSITION_HISTORY']))] if tier == 'thorough' else []):
-        c, fa, fb = pair_case(fam, name, extra, ['ENTRY=1', 'CB_BUDGET=0', 'WITH_PLAN', 'CB_KINDS=0x0e'], 'plan_update', tier, witness=True, base_extra=pb)
-        c.unwindset = [(r'vf_plan_|PlanT|CPlanT|updatePlan|clearTasks', 8)] + c.unwindset
+        # quick: the plan executor as a unit (update() minus processRequest(), the issued requests compared in the queue);
+        # thorough adds the full update()
+        c, fa, fb = pair_case(fam, name, extra, ['ENTRY=20', 'CB_BUDGET=0', 'WITH_PLAN', 'CB_KINDS=0x0e'], 'plan_exec', tier, witness=True, base_extra=pb)
+        c.unwindset = [(r'clearTasks', 8), (r'vf_plan_|PlanT|CPlanT|updatePlan', 5)] + c.unwindset
         L.append(c)
+        if tier == 'thorough':
+            c, fa, fb = pair_case(fam, name, extra, ['ENTRY=1', 'CB_BUDGET=0', 'WITH_PLAN', 'CB_KINDS=0x0e'], 'plan_update', tier, witness=True, base_extra=pb)
+            c.unwindset = [(r'clearTasks', 8), (r'vf_plan_|PlanT|CPlanT|updatePlan', 5)] + c.unwindset
+            L.append(c)
     if tier == 'thorough':
         for name, extra in [p for p in PAIRS if p[0] in ('plans', 'all', 'logger_on')]:
             c, fa, fb = pair_case('foroot', name, extra, ['ENTRY=2', 'KIND=1', 'CB_BUDGET=1'], 'imm1', tier)
